@@ -145,7 +145,7 @@ def snapshot_selftest(rng):
     def tree_with_inner():
         while True:
             b = [rc.sentence(rng, 'en', full=True, nbest=2), rc.placeholder()]
-            if not b[0][0].tree.is_leaf:
+            if not b[0][0].tree.is_leaf and len(b[0][0].tree.children) == 2:      # a binary root: reversing the children of a unary one changes nothing
                 return b
     edits = {
         'token key removed': lambda b: b[0][0].tree.tokens[0].pop('lemma'),
